@@ -180,6 +180,7 @@ func (w *c06World) checkPublished(what string) {
 	w.expectList("C06", "netmap() after "+what, w.call("netmap"), w.current)
 	w.expectList("C06", "snapshot(0) after "+what, w.call("snapshot", 0), w.current)
 	if w.cur > 0 {
+		w.expectList("C06", fmt.Sprintf("snapshotByEpoch(%d) after %s", w.cur, what), w.call("snapshotByEpoch", w.cur), w.current)
 		w.expectList("C06", fmt.Sprintf("listNodes(%d) after %s", w.cur, what), w.call("listNodes", w.cur), w.ticked[w.cur])
 		w.expectList("C06", "listNodes() after "+what, w.call("listNodes"), w.ticked[w.cur])
 	}
@@ -207,7 +208,17 @@ func TestC06Stateful(t *testing.T) {
 		steps := rapid.IntRange(2, 25).Draw(rt, "steps")
 		marker := 0
 		for i := 0; i < steps; i++ {
-			switch rapid.SampledFrom([]string{"cand", "cand", "subscribe", "subscribe", "reject", "tick", "tick", "tick", "lock"}).Draw(rt, "kind") {
+			switch rapid.SampledFrom([]string{"cand", "cand", "subscribe", "subscribe", "reject", "tick", "tick", "tick", "tick", "lock", "resize"}).Draw(rt, "kind") {
+			case "resize":
+				// the number of retained maps is configuration: a tick must publish under any accepted count (C08 judges what
+				// is retained; here only the newest map and the current lists are read)
+				n := rapid.SampledFrom([]int64{1, 2, 3, 5, 9, 10, 11, 15}).Draw(rt, "count")
+				o := w.c.Invoke(alpha, w.nm, "updateSnapshotCount", n)
+				h.Op("updateSnapshotCount(%d) -> %s", n, o)
+				if o.Halt {
+					h.Mark("snapshot-count-changed")
+				}
+				w.checkPublished(fmt.Sprintf("updateSnapshotCount(%d)", n))
 			case "cand":
 				marker++
 				k := rapid.IntRange(0, 2).Draw(rt, "key")
